@@ -967,7 +967,18 @@ def cases_sweep(tier):
                                 'tabset': 'builtin' if idx % 3 == (idx // 3) % 3 else 'gen',
                                 'gap': 'flow' if (n_asm > 1 and idx % 2) else 'none', 'idx': idx})
                     idx += 1
+        for model in ('fuel', 'pin'):
+            out.append({'part': 'sweep', 'rings': 2, 'model': model, 'n_asm': 2, 'layout': 'cycle',
+                        'shape': 1, 'tabset': 'gen', 'gap': 'none', 'idx': idx})
+            idx += 1
     else:
+        for rings in (2, 3):
+            for model in ('fuel', 'pin'):
+                for shape in range(5):
+                    for gap in ('none', 'flow'):
+                        out.append({'part': 'sweep', 'rings': rings, 'model': model, 'n_asm': 2, 'layout': 'cycle',
+                                    'shape': shape, 'tabset': 'gen', 'gap': gap, 'idx': idx})
+                        idx += 1
         for rings in (2, 3):
             for model in ('fuel', 'pin'):
                 for n_asm in (1, 2, 3):
@@ -1036,12 +1047,18 @@ def _sweep_scenario(c):
     flow0 = {2: 0.5, 3: 1.4}[rings]
     assign, pw = [], {}
     pos = list(POSITIONS[n_asm])
+    bpos = (2, 2)
+    if c.get('layout') == 'cycle':
+        # type A (defined first) on ids 1 and 2, type B on id 0: collecting the rows type by type and
+        # sorting them by assembly id is then a 3-cycle (not an involution)
+        pos = [(2, 1), (2, 2)]
+        bpos = (1, 1)
     for j, (rg, ps) in enumerate(pos):
         assign.append(['A', rg, ps, {'flowrate': round(flow0 * (1.0 - 0.15 * j), 6)}])
         pw[str(S.asm_id(rg, ps) + 1)] = _power(rings, q0 * (1.0 - 0.1 * j), c['shape'] + j, j)
     if n_asm > 1:
-        assign.append(['B', 2, 2, {'flowrate': round(flow0 * 0.8, 6)}])
-        pw[str(S.asm_id(2, 2) + 1)] = _power(rings, q0 * 0.9, c['shape'] + 3, 3)
+        assign.append(['B', bpos[0], bpos[1], {'flowrate': round(flow0 * 0.8, 6)}])
+        pw[str(S.asm_id(*bpos) + 1)] = _power(rings, q0 * 0.9, c['shape'] + 3, 3)
     scn = S.single(tdefs['A'], flow0, length=0.4, power=None)
     scn['types'] = tdefs
     scn['assign'] = assign
